@@ -165,6 +165,45 @@ def process(ctx: Ctx, cases: list[dict]) -> None:
             if got != base_cache[key]:
                 ctx.violation("result depends on earlier operations / counter value / working directory / path spelling", c, got, base_cache[key],
                               replay=c)
+        elif c["kind"] == "readopts":
+            # every combination of the read options, from several counter values: model readFile vs DictReader.read
+            ctx.case(c, True, ("readopts",))
+            if ctx.oracle_only:
+                continue
+            import json as _json
+            from dictIO import DictReader
+            fs = []
+            for nm, text in FILES.items():
+                comps = ["R", "proj"] + nm.split("/")
+                fs.append([comps, {"json": c01.enc_entries(_json.loads(text))} if nm.endswith(".json") else {"native": text}])
+            o = c["opts"]
+            req = {"op": "read", "fs": fs, "path": ["R", "proj"] + c["file"].split("/"), "start": c["start"], "includes": o["includes"],
+                   "order": o["order"], "comments": o["comments"]}
+            if o["scope"]:
+                req["scope"] = [{"s": k} for k in o["scope"]]
+            m = ctx.driver([req])[0]
+            try:
+                with impl.scratch() as td:
+                    build(td)
+                    reset_globals(c["start"])
+                    kw = dict(includes=o["includes"], order=o["order"], comments=o["comments"])
+                    if o["scope"]:
+                        kw["scope"] = list(o["scope"])
+                    try:
+                        sd = DictReader.read(td / "proj" / c["file"], **kw)
+                        ij = _json.loads(_json.dumps(c01.sd_json(sd)).replace(str(td), "/R"))
+                    except SystemExit:
+                        ij = "exit1"
+            except Exception as e:  # noqa: BLE001
+                ctx.violation("DictReader.read raises for an option combination", c, repr(e), "result"); continue
+            if isinstance(m, dict) and "sd" in m:
+                if canon_floats(m["sd"]) != ij:
+                    ctx.disagree("DictReader.read (option matrix)", c, canon_floats(m["sd"]), ij)
+            elif m == "exit1" or ij == "exit1":
+                if m != ij:
+                    ctx.disagree("DictReader.read (option matrix): scope missing", c, m, ij)
+            else:
+                ctx.unsupported += 1
         elif c["kind"] == "model":
             # model: canonical parse result is the same from every counter start, and equals the implementation's
             ctx.case(c, True, ("model",))
@@ -218,6 +257,10 @@ def run(ctx: Ctx) -> None:
         n = rng.randint(2, 6)
         cases.append({"kind": "hist", "prefix": [rng.randrange(len(PREFIX_OPS)) for _ in range(n)], "probe": rng.randrange(len(PROBES)),
                       "start": rng.choice(starts + [rng.randint(0, LIMIT)]), "cwd": rng.choice(cwds)})
+    for file in ("a.dict", "m.dict", "c.json"):
+        for inc, order, comments, scope in itertools.product([True, False], [False, True], [True, False], [None, ["n"], ["nope"]]):
+            for st in rng.sample([-1, 0, 41, LIMIT - 3, LIMIT - 1, LIMIT], 2 if ctx.tier == "quick" else 6):
+                cases.append({"kind": "readopts", "file": file, "start": st, "opts": {"includes": inc, "order": order, "comments": comments, "scope": scope}})
     for text in (FILES["a.dict"], FILES["b.dict"], "a 'x'; b 'y'; // c\n/* d */ e \"$a\";\n"):
         cases.append({"kind": "model", "text": text, "starts": [-1, 0, 41, LIMIT - 3, LIMIT - 1, LIMIT]})
     process(ctx, cases)
